@@ -1,0 +1,10 @@
+//go:build verif
+
+// Machine-checked contracts for package watch (comment-only; read by
+// /verif/govc, never compiled into the program).
+
+package watch
+
+//@ func NewWatcher
+//@   nomod
+//@   ensures err == nil ==> w != nil
